@@ -681,13 +681,10 @@ impl BinArchive {
         if address >= self.data.len() {
             return Ok(());
         }
-        let range = address..self.data.len();
-        self.data.drain(range.clone());
-        for i in range.step_by(4) {
-            self.text.remove(&i);
-            self.labels.remove(&i);
-            self.pointers.remove(&i);
-        }
+        self.data.drain(address..);
+        self.text.retain(|k, _| *k < address);
+        self.labels.retain(|k, _| *k < address);
+        self.pointers.retain(|k, _| *k < address);
         self.cstrings = filter_cstrings(&self.cstrings, |a| a < address);
         Ok(())
     }
